@@ -487,7 +487,10 @@ BareEvent(s, e) ==
 BareRootProps(n) == ExitProps(Nodes[n]) \cup {"C06"}
 BareDone(s0, e) ==
     LET s == DoneC01(s0, e)
-        faults == Faults(s.cur.ty, s.cur.val, <<>>, s.cur.pk, {})
+        \* the one freedom that shows in a twin: a unit variant under deny_unknown_fields that reports the members next to its tag
+        \* (see LaxUnit) - the fact is read off the reports themselves (it only matters at the location of such a variant)
+        facts == {[f |-> "unitdeny", loc |-> s0.reps[j].loc, j |-> 0] : j \in {k \in 1..Len(s0.reps) : s0.reps[k].k \in {"unknownkey", "fn"}}}
+        faults == Faults(s.cur.ty, s.cur.val, <<>>, s.cur.pk, facts)
         got == s.reps
         diff == {got[j] : j \in {k \in 1..Len(got) : Count(got, got[k]) # Count(faults, got[k])}}
                 \cup {faults[j] : j \in {k \in 1..Len(faults) : Count(got, faults[k]) # Count(faults, faults[k])}}
